@@ -514,3 +514,74 @@ Definition xevent_eqb (a b : xevent Z) : bool :=
   | XSSub c, XSSub d | XSUnsub c, XSUnsub d => Nat.eqb c d
   | _, _ => false
   end.
+
+(* ---- multicast(subject_factory=..., mapper=...) (and publish / publish_value / replay with a
+        mapper).  reactivex/operators/_multicast.py: EVERY subscribe() builds its own
+        ConnectableObservable on a fresh subject, subscribes the observer to mapper(connectable),
+        then connects, and returns CompositeDisposable(subscription, connectable.connect()).
+        Modelled for the identity mapper and histories of top-level calls: one instance of the
+        plain machine per subscriber, created by `sub o` (= [CSub o; CConnect] in the instance),
+        disposed by `unsub o` (= [CUnsub o; CDisc 0]); a source notification is handed to the
+        instances in creation order (Source.push); the instance's source subscription gets the
+        global number = its rank.  Tied to the code for the synchronous subject kinds (ReplaySubject
+        instances would share one scheduler, drained once per operation). ---- *)
+Section Mapper.
+Context {A E_st E_in E_op : Type}.
+Context (e_exec : E_in -> E_st -> E_st * list E_in * list (@sev A E_op)).
+Context (e_call : @sop A -> list E_in).
+Context (e_drain : list E_in).
+Context (cold : list (ev A)) (st0 : E_st) (fuel : nat).
+Notation kc := (@kcfg A E_st E_in E_op).
+
+Definition feed (c : kc) (ops : list (@cop A)) : kc :=
+  krun e_exec e_call MPlain true cold (fun _ _ => []) fuel
+       (KCfg (k_eng c) (k_bk c) (k_out c)
+             (k_k c ++ flat_map (fun p => KOp p :: map (@KS A E_in) e_drain) ops) (k_log c)).
+
+(* what the instance logged since [old], oldest first; its own operations are not the driver's *)
+Definition delta (rank : nat) (old new : kc) : list (xevent A) :=
+  flat_map (fun e => match e with
+                     | XOp _ => [] | XSSub _ => [XSSub rank] | XSUnsub _ => [XSUnsub rank] | x => [x]
+                     end)
+           (xlog (skipn (length (k_log old)) (klog_of new))).
+
+Fixpoint mall (sel : nat -> list (@cop A)) (rank : nat) (insts : list (nat * kc))
+  : list (nat * kc) * list (xevent A) :=
+  match insts with
+  | [] => ([], [])
+  | (o, c) :: t =>
+      let c' := match sel o with [] => c | ops => feed c ops end in
+      let '(t', evs) := mall sel (S rank) t in
+      ((o, c') :: t', delta rank c c' ++ evs)
+  end.
+
+Definition mstep (insts : list (nat * kc)) (p : @cop A) : list (nat * kc) * list (xevent A) :=
+  match p with
+  | CSub o =>
+      if existsb (fun x => Nat.eqb (fst x) o) insts then (insts, [])
+      else let c0 := KCfg st0 fresh_book (fun _ => None) [] [] in
+           let c1 := feed c0 [CSub o; CConnect] in
+           (insts ++ [(o, c1)], delta (length insts) c0 c1)
+  | CUnsub o => mall (fun o' => if Nat.eqb o' o then [CUnsub o; CDisc 0] else []) 0 insts
+  | CConnect | CDisc _ => (insts, [])          (* the connectables are not reachable from outside *)
+  | _ => mall (fun _ => [p]) 0 insts
+  end.
+
+Fixpoint mrun (insts : list (nat * kc)) (top : list (@cop A)) : list (nat * kc) * list (xevent A) :=
+  match top with
+  | [] => (insts, [])
+  | p :: t => let '(i1, e1) := mstep insts p in
+              let '(i2, e2) := mrun i1 t in (i2, XOp p :: e1 ++ e2)
+  end.
+End Mapper.
+
+Definition run_mapper {A} (pynone : A) (fl : flavour A) (cold : list (ev A)) (fuel : nat) (top : list (@cop A))
+  : list (xevent A) * bool :=
+  match fl with
+  | FSync K v0 =>
+      let '(insts, evs) := mrun (sync_exec (cls_of pynone K)) sync_call [] cold (sync_init v0) fuel [] top in
+      (evs, forallb (fun x => kfinished (snd x)) insts)
+  | FReplay bs w =>
+      let '(insts, evs) := mrun replay_exec replay_call [RIDrain] cold (replay_init bs w) fuel [] top in
+      (evs, forallb (fun x => kfinished (snd x)) insts)
+  end.
